@@ -60,6 +60,8 @@ def tlc_op_of(h):
     arg = h.get("arg") or {}
     if kind == "hold":
         k = arg.get("k", 1)
+    elif kind in ("merge", "coalesce"):
+        k = arg.get("n", 2)
     elif kind == "split":
         k = 20 if "ranges" in arg else arg.get("n", 2)
     elif kind == "rw":
